@@ -358,6 +358,12 @@ impl<'a> W<'a> {
                     key = others[self.rng.below(others.len() as u64) as usize].to_vec();
                 }
             }
+            6 if self.rng.chance(1, 3) => {
+                // a context longer than the documented 255 bytes handed to a verifier
+                bump(&mut self.c, "fault:context_overlong");
+                let n = [256usize, 257, 286, 287, 300, 400, 1000][self.rng.below(7) as usize];
+                ctx = Some(self.rng.bytes(n));
+            }
             6 => {
                 bump(&mut self.c, "fault:context_changed");
                 ctx = match ctx {
@@ -722,7 +728,14 @@ impl<'a> W<'a> {
             }
         }
         // corruption: most stay inside the property's domain
-        if n > 0 && self.faulty() {
+        let big_tail = n > 4096 && self.rng.coin();
+        if big_tail {
+            // a bad entry in the last few positions of a very large batch
+            bump(&mut self.c, "fault:batch_msg_changed_in_tail");
+            let pos = n - 1 - self.rng.below(4) as usize;
+            entries[pos].1.push(9);
+        }
+        if n > 0 && !big_tail && self.faulty() {
             let pos = match self.rng.below(4) {
                 0 => 0,
                 1 => n - 1,
